@@ -66,13 +66,18 @@ def run_binding(sc):
     info = {'explicit': 0, 'loopy': 0, 'flow': 0, 'raised_ok': 0, 'bg': 0}
     keep = []
 
-    async def main():
+    S = {}
+
+    def construct():
+        """the constructor phase; runs either inside the running caller loop or - 'outside' - in plain
+        synchronous code before the loop runs (module-level pipeline set-up in a script)"""
         caller = IOLoop.current()
         other = IOLoop(make_current=False)
         loops = {'caller': caller, 'other': other, None: None}
         chains = {}        # chain id -> dict(nodes, loop (model: None/'caller'/'other'/'bg'), mode (None/True/False), root)
         bg_loop = [None]
         seen_cb_loops = []
+        S.update(caller=caller, other=other, chains=chains, seen=seen_cb_loops)
 
         def user_fn(x):
             try:
@@ -81,6 +86,7 @@ def run_binding(sc):
                 seen_cb_loops.append(None)
             return x
 
+        S['user_fn'] = user_fn
         for si, st in enumerate(sc['steps']):
             kind = st['kind']
             a = st.get('asynchronous')
@@ -257,6 +263,12 @@ def run_binding(sc):
                                    '%s: %d background loop thread(s) requested in total, expected %d'
                                    % (where, _Thread.count, want_threads), node_op=kind))
                 return
+    async def main():
+        if not sc.get('outside'):
+            construct()
+        if V:
+            return
+        caller, other, chains, seen_cb_loops, user_fn = S['caller'], S['other'], S['chains'], S['seen'], S['user_fn']
         # ---- data flow on the asynchronous pipelines ------------------------
         for cid, ch in sorted(chains.items()):
             if ch['mode'] is not True or ch['loop'] != 'caller':
@@ -298,6 +310,9 @@ def run_binding(sc):
 
     status = 'ok'
     try:
+        if sc.get('outside'):
+            asyncio.set_event_loop(lp)        # the thread's current loop, not running yet
+            construct()
         lp.run_until_complete(main())
     except simloop.Deadlock:
         status = 'deadlock'
@@ -347,6 +362,8 @@ def evaluate(prop, sc, want_trace=False):
         out.probes['background_loop_used'] = 1
     if any(st['kind'] == 'join' for st in sc['steps']):
         out.probes['pipelines_joined'] = 1
+    if sc.get('outside'):
+        out.probes['constructed_outside_a_running_loop'] = 1
     out.nontrivial = bool(info['explicit'] or info['loopy'])
     if want_trace:
         import types
@@ -420,7 +437,8 @@ def generate(prop, rng, seed, index, tier):
         for st in order[at + 1:]:
             if st['chain'] == j['chain'] and 'parent' in st:
                 st['parent'] = min(st['parent'], len(ka) - 1)
-    return {'format': 1, 'family': 'binding', 'property': 'C19', 'seed': seed, 'index': index, 'steps': order}
+    return {'format': 1, 'family': 'binding', 'property': 'C19', 'seed': seed, 'index': index, 'steps': order,
+            'outside': rng.random() < 0.3}
 
 
 def shrink_candidates(sc):
